@@ -236,6 +236,20 @@ pub fn run_c09(p: &mut Prng, t: Tier, i: usize, sink: &mut Sink) {
         r[32] = 4;
         branches.push(vec![set("a.sig", &r), v()]);
     }
+    // the way S is handed over: another Jacobian representation of the genuine S (must still
+    // verify), the point at infinity (must be refused, not crash), an off-curve S in Jacobian form
+    {
+        let z = hex::encode(sp.bytes(31));
+        let mut g = sm9_verify_op("a", true);
+        g["s_form"] = json!(format!("jac:01{z}"));
+        branches.push(vec![g]);
+        let mut inf = v();
+        inf["s_form"] = json!("infinity");
+        branches.push(vec![inf]);
+        let mut off = v();
+        off["s_form"] = json!(format!("jac:02{z}"));
+        branches.push(vec![fault("a.sig", "xorbyte", json!({"pos":96,"val":1})), off]);
+    }
     if chunk == 0 {
         let mut f = w.fork();
         f.exec(sm9_verify_op("a", true));
@@ -400,6 +414,14 @@ pub fn run_c10(p: &mut Prng, t: Tier, i: usize, sink: &mut Sink) {
     for _ in 0..8 {
         let (a, b) = (65 + sp.range(0, 31), 97 + sp.range(0, mlen - 1));
         branches.push(vec![fault("a.ct", "xorpair", json!({"pos1":a,"pos2":b,"val":1u8 << sp.below(8)})), d()]);
+    }
+    // the same three components in the other framing (C1||C2||C3), and C3/C2 exchanged in place
+    {
+        let mut alt = ct[..65].to_vec();
+        alt.extend_from_slice(&ct[97..]);
+        alt.extend_from_slice(&ct[65..97]);
+        w.bump("fault.rearranged-framing");
+        branches.push(vec![set("a.ct", &alt), d()]);
     }
     // different identity at the receiver
     branches.push(vec![fault("a.id", "extend", json!({"hex":"00"})), d()]);
@@ -775,7 +797,18 @@ fn kex_session(p: &mut Prng, w: &mut World, plan: &KexPlan, fixed: Option<(&str,
         f["slot"] = json!("m1.ra");
         w.exec(f);
     }
-    let r2 = w.exec(json!({"op":"sm9.kex.1b","impl":plan.impl_b,"ppube":"k.pub","ida":"k.id","idb":"k.idb","de":"k.ukb","ra":"m1.ra","klen":klen,"out_rb":"m2.rb","out_sk":"b.sk","conform":plan.conform,"rng":script(p, fixed.map(|f| f.2))}));
+    // points are handed over the way callers really do it: half of the time as the un-normalised
+    // Jacobian struct the library itself returned (modelled as a random representation)
+    let form = |p: &mut Prng| -> String {
+        if fixed.is_none() && p.chance(1, 2) {
+            format!("jac:01{}", hex::encode(p.bytes(31)))
+        } else {
+            "affine".to_string()
+        }
+    };
+    let ra_form = form(p);
+    let rb_form = form(p);
+    let r2 = w.exec(json!({"op":"sm9.kex.1b","impl":plan.impl_b,"ppube":"k.pub","ida":"k.id","idb":"k.idb","de":"k.ukb","ra":"m1.ra","ra_form":ra_form,"klen":klen,"out_rb":"m2.rb","out_sk":"b.sk","conform":plan.conform,"rng":script(p, fixed.map(|f| f.2))}));
     let b_ok = r2.get("class").and_then(|c| c.as_str()) == Some("Ok");
     if b_ok {
         w.exec(json!({"op":"copy","from":"m2.rb","to":"b.store.rb"}));
@@ -784,7 +817,7 @@ fn kex_session(p: &mut Prng, w: &mut World, plan: &KexPlan, fixed: Option<(&str,
             f["slot"] = json!("m2.rb");
             w.exec(f);
         }
-        w.exec(json!({"op":"sm9.kex.2a","impl":plan.impl_a,"ppube":"k.pub","ida":"k.id","idb":"k.idb","de":"k.uk","r":"a.store.r","ra":"a.store.ra","rb":"m2.rb","klen":klen,"out_sk":"a.sk","conform":plan.conform}));
+        w.exec(json!({"op":"sm9.kex.2a","impl":plan.impl_a,"ppube":"k.pub","ida":"k.id","idb":"k.idb","de":"k.uk","r":"a.store.r","ra":"a.store.ra","rb":"m2.rb","rb_form":rb_form,"klen":klen,"out_sk":"a.sk","conform":plan.conform}));
     }
     let opt = |w: &World, s: &str| -> Value {
         if w.slots.contains_key(s) {
